@@ -489,6 +489,56 @@ var pathShapes = func() []pathShape {
 		}
 	}
 
+	// key type x signature algorithm x issue date x template: rules about algorithms exist in several sources
+	// (Mozilla, BRs, RFC) and look at the key, at the signature algorithm, or at both
+	keys := []struct {
+		name string
+		mk   func() *der.Node
+	}{
+		{"rsa", func() *der.Node { return gen.DefaultSPKI() }},
+		{"p256", func() *der.Node { return gen.ECSPKI() }},
+		{"p384", func() *der.Node { return ecPointSPKI(gen.OIDP384, elliptic.P384()) }},
+		{"dsa2048", func() *der.Node { return gen.DSASPKI(2048, 256) }},
+		{"dsa1024", func() *der.Node { return gen.DSASPKI(1024, 160) }},
+		{"ed25519", func() *der.Node { return gen.Ed25519SPKI() }},
+	}
+	sigs := []struct {
+		name, oid string
+		null      bool
+		siglen    int
+	}{
+		{"sha256-rsa", gen.OIDSha256RSA, true, 256}, {"sha1-rsa", gen.OIDSha1RSA, true, 256}, {"md5-rsa", gen.OIDMd5RSA, true, 256}, {"sha384-rsa", gen.OIDSha384RSA, true, 384},
+		{"ecdsa-sha256", gen.OIDEcdsaSha256, false, 71}, {"ecdsa-sha384", gen.OIDEcdsaSha384, false, 103}, {"dsa-sha1", gen.OIDDsaSha1, false, 46}, {"dsa-sha256", gen.OIDDsaSha256, false, 62},
+		{"ed25519", gen.OIDEd25519, false, 64}, {"rsa-pss", "1.2.840.113549.1.1.10", false, 256}, {"sha256-rsa without null", gen.OIDSha256RSA, false, 256}, {"unknown", "1.2.3.4.5", false, 64},
+	}
+	dates := []time.Time{gen.D(2015, 3, 1), gen.D(2020, 8, 19), gen.D(2020, 8, 20), gen.D(2022, 3, 1), gen.D(2024, 3, 1)}
+	for _, ky := range keys {
+		for _, sg := range sigs {
+			for di, dt := range dates {
+				for t := 0; t < 3; t++ {
+					ky, sg, dt, t := ky, sg, dt, t
+					if t == 2 && di%2 == 1 {
+						continue
+					}
+					cert(fmt.Sprintf("key %s signed %s issued %s on %s", ky.name, sg.name, dt.Format("2006-01-02"), []string{"tls", "sub-ca", "smime"}[t]), func() *gen.Spec {
+						var s *gen.Spec
+						switch t {
+						case 0:
+							s = gen.TLSLeaf(dt, "www.example.com")
+						case 1:
+							s = gen.SubCA(dt)
+						default:
+							s = gen.SMIMELeaf(dt, "alice@example.com")
+						}
+						s.SPKI = ky.mk()
+						s.SigOID, s.SigNull, s.SigLen = sg.oid, sg.null, sg.siglen
+						return s
+					})
+				}
+			}
+		}
+	}
+
 	// time encodings the parser may or may not take
 	na := gen.D(2051, 6, 1)
 	for i, tn := range []func() *der.Node{
